@@ -1,7 +1,7 @@
 """C02 banded alignment — SR-2 (mode wrappers), RI-2 (scratch re-initialisation), TS-1 (band freshness),
 GD-1 (cell-budget sentinel)."""
 from . import effects, eng_sr, eng_ri, eng_gd
-from .c01 import run_sr, run_ri, MIN, tb1b
+from .c01 import run_sr, run_ri, MIN, tb1b, tb1
 from .mirlib import call_info, strip, strip_casts, fmt, norm_cmp
 
 LEVEL = 'proof'
@@ -240,3 +240,4 @@ def run(facts, rep, ctx):
     ts1_band_freshness(facts, rep)
     gd1_budget(facts, rep)
     tb1b(facts, rep, 'TB-1b', PRE + 'compute_alignment')
+    tb1(facts, rep, 'TB-1', PRE + 'compute_alignment')
